@@ -48,3 +48,10 @@ prop("C14", level="proof", runtime=True,
      not_decided=["orchestration of evaluate(): that add() establishes run()'s precondition for every batch is checked at run time "
                   "only (bounded, multi-batch histories); GradientEvaluator.run step 1 (base evaluation) reuses Evaluator.evaluate's proof",
                   "exactly n additional objective evaluations per design for the gradient evaluator: bounded run-time check only"])
+prop("C16", level="proof", runtime=True,
+     assumptions=["A1: identities hold over the reals (up to rounding in floating point)",
+                  "A5: sin/cos/sqrt/pow are uninterpreted functions with the elementary facts listed in the models",
+                  "recursive spec functions (products, sums of squares): frame axioms by induction on the length (trusted); "
+                  "sum(): congruence / lower-bound / first-element facts (trusted)",
+                  "DTLZ2-4: dimension = m + 9 (k = 10 distance variables, as hard-coded); DTLZ1: any k >= 1"],
+     not_decided=["'the Pareto-optimal set maps onto the simplex / unit sphere' is the instance g = 0 of the proved identities"])
